@@ -225,60 +225,38 @@ def network_simplex(
                 state[arc] = 0
 
         if leaving != entering:
-            if leaving_first:
-                leaving_node = first
-                while pred[leaving_node] != leaving:
-                    leaving_node = parent[leaving_node]
-                new_parent = second
-            else:
-                leaving_node = second
-                while pred[leaving_node] != leaving:
-                    leaving_node = parent[leaving_node]
-                new_parent = first
+            # The basis tree loses the leaving arc and gains the entering arc. Rebuild
+            # parent/pred/depth/thread/pi from the tree arcs: the subtree that was cut off
+            # hangs from the entering arc now and has to be re-rooted there.
+            tree_arcs = [pred[i] for i in range(n) if pred[i] != leaving] + [entering]
+            adjacent: list[list[tuple[int, int]]] = [[] for _ in range(total_nodes)]
+            for arc in tree_arcs:
+                adjacent[source[arc]].append((target[arc], arc))
+                adjacent[target[arc]].append((source[arc], arc))
 
-            prev_thread = rev_thread[leaving_node]
-            subtree_last = leaving_node
-            node = thread[leaving_node]
-            while depth[node] > depth[leaving_node]:
-                subtree_last = node
-                node = thread[node]
+            order = []
+            stack = [root]
+            seen = [False] * total_nodes
+            seen[root] = True
+            while stack:
+                node = stack.pop()
+                order.append(node)
+                for other, arc in adjacent[node]:
+                    if not seen[other]:
+                        seen[other] = True
+                        parent[other] = node
+                        pred[other] = arc
+                        depth[other] = depth[node] + 1
+                        if source[arc] == other:
+                            pi[other] = pi[node] + cost[arc]
+                        else:
+                            pi[other] = pi[node] - cost[arc]
+                        stack.append(other)
 
-            thread[prev_thread] = thread[subtree_last]
-            rev_thread[thread[subtree_last]] = prev_thread
-
-            attach_point = new_parent
-            node = thread[new_parent]
-            while node != new_parent and depth[node] > depth[new_parent]:
-                attach_point = node
-                node = thread[node]
-
-            thread[subtree_last] = thread[attach_point]
-            if thread[attach_point] < total_nodes:
-                rev_thread[thread[attach_point]] = subtree_last
-            thread[attach_point] = leaving_node
-            rev_thread[leaving_node] = attach_point
-
-            parent[leaving_node] = new_parent
-            pred[leaving_node] = entering
-
-            diff = depth[new_parent] + 1 - depth[leaving_node]
-            node = leaving_node
-            while True:
-                depth[node] += diff
-                node = thread[node]
-                if depth[node] <= depth[leaving_node] - diff or node == leaving_node:
-                    break
-
-            node = leaving_node
-            while True:
-                arc = pred[node]
-                if source[arc] == parent[node]:
-                    pi[node] = pi[parent[node]] - cost[arc]
-                else:
-                    pi[node] = pi[parent[node]] + cost[arc]
-                node = thread[node]
-                if depth[node] <= depth[new_parent] or node == leaving_node:
-                    break
+            for pos, node in enumerate(order):
+                nxt = order[(pos + 1) % total_nodes]
+                thread[node] = nxt
+                rev_thread[nxt] = node
 
     for arc in range(m, total_arcs):
         if flow[arc] > 0:
